@@ -10,7 +10,10 @@
 
    Main theorem [resolve_vperm_env]: for environments whose parameter values / mapping values agree up to [vperm]
    (in particular for one fixed environment) and contain no duplicate keys,
-       vperm v w -> nodup_keys v -> rel_res vperm (resolve e v) (resolve e' w). *)
+       vperm v w -> nodup_keys v -> rel_res vperm (resolve e v) (resolve e' w).
+   Since the repair of F31 (Fn::FindInMap finds a key spelled like a boolean by the FIRST spelling in dictionary order) there
+   is one more hypothesis, [maps_bk_unique (mappings e)]: no level of a mapping holds two spellings of the same boolean
+   ("True" and "TRUE").  Without it the statement is false -- see the comment above [do_find_in_map_vperm]. *)
 From Coq Require Import List Bool NArith ZArith Lia Permutation.
 From PV Require Import Base.Str Base.Value Resolver.Consts Resolver.Text Resolver.Resolve Resolver.Spec Resolver.Ext
   Resolver.Template Resolver.CondFacts.
@@ -565,27 +568,108 @@ Qed.
 Lemma do_base64_vperm b b' : vperm b b' -> rel_res vperm (do_base64 b) (do_base64 b').
 Proof. intros H. destruct H; try exact I. simpl. constructor. Qed.
 
-Lemma do_find_in_map_vperm e e' m m' k1 k1' k2 k2' : eperm e e' -> env_nodup e ->
+(* ---- Fn::FindInMap: the two keys are read through [lookup_bk] (Resolve.v, repair of F31).
+   The exact lookup is order-blind as soon as keys are unique.  The case-blind fallback (key text "true" / "false" absent as
+   written: the FIRST entry, in dictionary order, whose key lower-cases to it) is NOT: with {"True": a, "TRUE": b} the key
+   "true" finds a, with {"TRUE": b, "True": a} it finds b (example [C07_ex_boolean_spellings_excluded] in Properties/C07.v;
+   the library's `_mapping_get` does the same).  So every theorem below that reaches Fn::FindInMap has ONE more hypothesis
+   than before the repair, the minimal one: in each level of each mapping (the top-level keys, and the second-level keys
+   under each of them) no two keys are spellings of the same boolean ([maps_bk_unique]).  Nothing is asked of parameter
+   values, of the expression, or of the leaves of the mappings. ---- *)
+Definition bool_keys (d : list (str * value)) : list str := map lower (filter is_boolish (keys d)).
+Definition bk_uniqueb (d : list (str * value)) : bool := nodupb (bool_keys d).
+Definition map_bk_uniqueb (v : value) : bool :=
+  match v with
+  | VDict top => bk_uniqueb top && forallb (fun kv => match snd kv with VDict sec => bk_uniqueb sec | _ => true end) top
+  | _ => true
+  end.
+Definition maps_bk_unique (maps : list (str * value)) : Prop := forall m x, lookup m maps = Some x -> map_bk_uniqueb x = true.
+
+(* computable sufficient test (used by the examples) *)
+Lemma maps_bk_unique_forallb maps : forallb (fun kv => map_bk_uniqueb (snd kv)) maps = true -> maps_bk_unique maps.
+Proof.
+  intros H m x Hl. rewrite forallb_forall in H. exact (H (m, x) (lookup_In _ _ _ Hl)).
+Qed.
+Lemma is_boolish_lower s : is_boolish s = is_bool_text (lower s).
+Proof. reflexivity. Qed.
+Lemma filter_perm {A} (f : A -> bool) l l' : Permutation l l' -> Permutation (filter f l) (filter f l').
+Proof.
+  induction 1 as [|x l l' HP IH|x y l|l l' l'' HP1 IH1 HP2 IH2]; simpl.
+  - constructor.
+  - destruct (f x); [constructor; exact IH | exact IH].
+  - destruct (f x), (f y); try apply Permutation_refl. apply perm_swap.
+  - eapply Permutation_trans; eassumption.
+Qed.
+Lemma bool_keys_perm d d' : Permutation d d' -> Permutation (bool_keys d) (bool_keys d').
+Proof. intros HP. unfold bool_keys. apply Permutation_map. apply filter_perm. apply perm_keys. exact HP. Qed.
+Lemma bool_keys_cons k x d : bool_keys ((k, x) :: d) = if is_boolish k then lower k :: bool_keys d else bool_keys d.
+Proof. unfold bool_keys. simpl. destruct (is_boolish k); reflexivity. Qed.
+Lemma bool_keys_tail k x d : NoDup (bool_keys ((k, x) :: d)) -> NoDup (bool_keys d).
+Proof. rewrite bool_keys_cons. destruct (is_boolish k); [intros H; inv H; assumption | auto]. Qed.
+
+Lemma lookup_ci_erel k d d' : Forall2 (erel vperm) d d' -> orel vperm (lookup_ci k d) (lookup_ci k d').
+Proof.
+  induction 1 as [|[k0 x] [k0' y] d d' [Hk Hxy] HF IH]; simpl; [exact I|]. simpl in Hk, Hxy. subst k0'.
+  destruct (str_eqb (lower k0) k); [exact Hxy | exact IH].
+Qed.
+(* the first spelling found does not depend on the order when there is at most one spelling *)
+Lemma lookup_ci_perm k (d d' : list (str * value)) : Permutation d d' -> is_bool_text k = true -> NoDup (bool_keys d) ->
+  lookup_ci k d = lookup_ci k d'.
+Proof.
+  intros HP Hk. induction HP as [|[k0 x] d d' HP IH|[k1 x1] [k2 x2] d|d d' d'' HP1 IH1 HP2 IH2]; intros Hnd.
+  - reflexivity.
+  - simpl. rewrite (IH (bool_keys_tail _ _ _ Hnd)). reflexivity.
+  - simpl. destruct (str_eqb (lower k1) k) eqn:E1, (str_eqb (lower k2) k) eqn:E2; try reflexivity.
+    apply str_eqb_spec in E1, E2. exfalso. rewrite !bool_keys_cons, !is_boolish_lower, E1, E2, Hk in Hnd.
+    inv Hnd. apply H1. left. reflexivity.
+  - rewrite (IH1 Hnd). apply IH2. eapply Permutation_NoDup; [apply bool_keys_perm; exact HP1 | exact Hnd].
+Qed.
+Definition lookups_bk_perm (a b : list (str * value)) : Prop := forall k, orel vperm (lookup_bk k a) (lookup_bk k b).
+Lemma vperm_lookup_bk d d' : vperm (VDict d) (VDict d') -> NoDup (keys d) -> bk_uniqueb d = true -> lookups_bk_perm d d'.
+Proof.
+  intros H Hnd Hbk q. destruct (vperm_dict_inv _ _ H) as (d1 & d2 & Heq & HF & HP). inv Heq.
+  apply nodupb_spec in Hbk.
+  assert (Hnd1 : NoDup (keys d1)) by (rewrite <- (erel_keys _ _ _ HF); exact Hnd).
+  assert (Hbk1 : NoDup (bool_keys d1)) by (unfold bool_keys; rewrite <- (erel_keys _ _ _ HF); exact Hbk).
+  assert (E : lookup_bk q d2 = lookup_bk q d1).
+  { unfold lookup_bk. rewrite <- (lookup_perm d1 d2 HP Hnd1 q). destruct (lookup q d1); [reflexivity|].
+    destruct (is_bool_text q) eqn:B; [|reflexivity]. symmetry. apply lookup_ci_perm; assumption. }
+  rewrite E. unfold lookup_bk. pose proof (erel_lookup _ _ HF q) as Hl.
+  destruct (lookup q d) as [x|], (lookup q d1) as [x1|]; simpl in Hl; try contradiction; [exact Hl|].
+  destruct (is_bool_text q); [apply lookup_ci_erel; exact HF | exact I].
+Qed.
+Lemma nodup_lookup_bk d k x : nodup_keys (VDict d) -> lookup_bk k d = Some x -> nodup_keys x.
+Proof. intros H Hl. destruct (lookup_bk_In k d x Hl) as (k' & Hin & _). eapply nodup_in_dict; [exact H | exact Hin]. Qed.
+Lemma bk_unique_lookup_bk top k sec : map_bk_uniqueb (VDict top) = true -> lookup_bk k top = Some (VDict sec) ->
+  bk_uniqueb sec = true.
+Proof.
+  intros H Hl. destruct (lookup_bk_In k top _ Hl) as (k' & Hin & _). simpl in H. apply andb_true_iff in H. destruct H as [_ H].
+  rewrite forallb_forall in H. exact (H _ Hin).
+Qed.
+
+Lemma do_find_in_map_vperm e e' m m' k1 k1' k2 k2' : eperm e e' -> env_nodup e -> maps_bk_unique (mappings e) ->
   vperm m m' -> vperm k1 k1' -> vperm k2 k2' ->
   rel_res vperm (do_find_in_map e m k1 k2) (do_find_in_map e' m' k1' k2').
 Proof.
-  intros (_ & Hm & _) (_ & Hnm) H1 H2 H3.
+  intros (_ & Hm & _) (_ & Hnm) Hbm H1 H2 H3.
   destruct H1 as [ | | | ms | | | | ]; try exact I.
   destruct H2 as [ | | | s1 | | | | ]; try exact I.
   destruct H3 as [ | | | s2 | | | | ]; try exact I.
   unfold do_find_in_map.
-  pose proof (Hm ms) as Hl. pose proof (Hnm ms) as Hn.
+  pose proof (Hm ms) as Hl. pose proof (Hnm ms) as Hn. pose proof (Hbm ms) as Hb.
   destruct (lookup ms (mappings e)) as [x|], (lookup ms (mappings e')) as [x'|]; simpl in Hl; try contradiction;
     [|simpl; constructor].
-  specialize (Hn x eq_refl).
+  specialize (Hn x eq_refl). specialize (Hb x eq_refl).
   destruct Hl as [ | | | | | | | top top1 top' HF HP]; try exact I.
-  pose proof (vperm_lookup _ _ (vp_dict _ _ _ HF HP) (nodup_dict_keys _ Hn) s1) as Hl1.
-  pose proof (nodup_lookup top s1) as Hn1.
-  destruct (lookup s1 top) as [y|], (lookup s1 top') as [y'|]; simpl in Hl1; try contradiction; [|simpl; constructor].
+  pose proof Hb as Hb0. simpl in Hb0. apply andb_true_iff in Hb0. destruct Hb0 as [Hbt _].
+  pose proof (vperm_lookup_bk _ _ (vp_dict _ _ _ HF HP) (nodup_dict_keys _ Hn) Hbt s1) as Hl1.
+  pose proof (nodup_lookup_bk top s1) as Hn1. pose proof (bk_unique_lookup_bk top s1) as Hb1.
+  destruct (lookup_bk s1 top) as [y|], (lookup_bk s1 top') as [y'|]; simpl in Hl1; try contradiction; [|simpl; constructor].
   specialize (Hn1 y Hn eq_refl).
   destruct Hl1 as [ | | | | | | | sec sec1 sec' HF2 HP2]; try exact I.
-  pose proof (vperm_lookup _ _ (vp_dict _ _ _ HF2 HP2) (nodup_dict_keys _ Hn1) s2) as Hl2.
-  destruct (lookup s2 sec) as [z|], (lookup s2 sec') as [z'|]; simpl in Hl2; try contradiction; [|simpl; constructor].
+  specialize (Hb1 sec Hb eq_refl).
+  pose proof (vperm_lookup_bk _ _ (vp_dict _ _ _ HF2 HP2) (nodup_dict_keys _ Hn1) Hb1 s2) as Hl2.
+  destruct (lookup_bk s2 sec) as [z|], (lookup_bk s2 sec') as [z'|]; simpl in Hl2; try contradiction; [|simpl; constructor].
   pose proof Hl2 as Hz. destruct Hl2; simpl; try exact Hz. constructor.
 Qed.
 
@@ -667,10 +751,10 @@ Proof.
   destruct k2 as [| | | s2 | | | |]; try discriminate. unfold do_find_in_map.
   destruct (lookup ms (mappings e)) as [x|] eqn:E1; [|intros H; inv H; reflexivity].
   pose proof (Hnm ms x E1) as Hn. destruct x as [| | | | | | | top]; try discriminate.
-  destruct (lookup s1 top) as [y|] eqn:E2; [|intros H; inv H; reflexivity].
-  pose proof (nodup_lookup _ _ _ Hn E2) as Hn2. destruct y as [| | | | | | | sec]; try discriminate.
-  destruct (lookup s2 sec) as [z|] eqn:E3; [|intros H; inv H; reflexivity].
-  pose proof (nodup_lookup _ _ _ Hn2 E3) as Hn3. destruct z; intros H; inv H; try reflexivity; exact Hn3.
+  destruct (lookup_bk s1 top) as [y|] eqn:E2; [|intros H; inv H; reflexivity].
+  pose proof (nodup_lookup_bk _ _ _ Hn E2) as Hn2. destruct y as [| | | | | | | sec]; try discriminate.
+  destruct (lookup_bk s2 sec) as [z|] eqn:E3; [|intros H; inv H; reflexivity].
+  pose proof (nodup_lookup_bk _ _ _ Hn2 E3) as Hn3. destruct z; intros H; inv H; try reflexivity; exact Hn3.
 Qed.
 Lemma do_sub_nodup e text custom r : do_sub e text custom = Ok r -> nodup_keys r.
 Proof. unfold do_sub. intros H. bind_inv. inv H. reflexivity. Qed.
@@ -745,10 +829,10 @@ Ltac f2inv :=
   | H : Forall2 _ [] _ |- _ => inv H
   end.
 
-Theorem resolve_vperm_n e e' : eperm e e' -> env_nodup e ->
+Theorem resolve_vperm_n e e' : eperm e e' -> env_nodup e -> maps_bk_unique (mappings e) ->
   forall n v w, (vsize v < n)%nat -> vperm v w -> nodup_keys v -> rel_res vperm (resolve e v) (resolve e' w).
 Proof.
-  intros He Hne. pose proof He as (Hp & Hm & Hc).
+  intros He Hne Hbk. pose proof He as (Hp & Hm & Hc).
   induction n as [|n IH]; intros v w Hs Hvw Hnv; [lia|].
   destruct v as [| b | z | s | k t | bs | l | d].
   - inv Hvw. simpl. constructor.
@@ -887,22 +971,23 @@ Qed.
 
 (* the order of keys inside any object, at any depth -- in the expression, in parameter values, in mappings -- does not
    matter for resolution *)
-Theorem resolve_vperm_env e e' v w : eperm e e' -> env_nodup e -> vperm v w -> nodup_keys v ->
+Theorem resolve_vperm_env e e' v w : eperm e e' -> env_nodup e -> maps_bk_unique (mappings e) -> vperm v w -> nodup_keys v ->
   rel_res vperm (resolve e v) (resolve e' w).
-Proof. intros He Hne Hvw Hnv. apply (resolve_vperm_n e e' He Hne (S (vsize v))); [lia | exact Hvw | exact Hnv]. Qed.
+Proof. intros He Hne Hbk Hvw Hnv. apply (resolve_vperm_n e e' He Hne Hbk (S (vsize v))); [lia | exact Hvw | exact Hnv]. Qed.
 (* one environment *)
-Corollary resolve_vperm e v w : env_nodup e -> vperm v w -> nodup_keys v -> rel_res vperm (resolve e v) (resolve e w).
+Corollary resolve_vperm e v w : env_nodup e -> maps_bk_unique (mappings e) -> vperm v w -> nodup_keys v ->
+  rel_res vperm (resolve e v) (resolve e w).
 Proof. apply resolve_vperm_env. apply eperm_refl. Qed.
 (* read as: a successful resolution stays successful, with the same result up to key order; a failing one keeps failing *)
-Corollary resolve_vperm_ok e e' v w r : eperm e e' -> env_nodup e -> vperm v w -> nodup_keys v ->
+Corollary resolve_vperm_ok e e' v w r : eperm e e' -> env_nodup e -> maps_bk_unique (mappings e) -> vperm v w -> nodup_keys v ->
   resolve e v = Ok r -> exists r', resolve e' w = Ok r' /\ vperm r r'.
 Proof.
-  intros He Hne Hvw Hnv H. pose proof (resolve_vperm_env e e' v w He Hne Hvw Hnv) as R. rewrite H in R.
+  intros He Hne Hbk Hvw Hnv H. pose proof (resolve_vperm_env e e' v w He Hne Hbk Hvw Hnv) as R. rewrite H in R.
   destruct (resolve e' w) as [r'|]; simpl in R; [eauto | contradiction].
 Qed.
-Corollary resolve_vperm_is_ok e e' v w : eperm e e' -> env_nodup e -> vperm v w -> nodup_keys v ->
+Corollary resolve_vperm_is_ok e e' v w : eperm e e' -> env_nodup e -> maps_bk_unique (mappings e) -> vperm v w -> nodup_keys v ->
   is_ok (resolve e v) = is_ok (resolve e' w).
-Proof. intros He Hne Hvw Hnv. eapply rel_res_is_ok. apply resolve_vperm_env; assumption. Qed.
+Proof. intros He Hne Hbk Hvw Hnv. eapply rel_res_is_ok. apply resolve_vperm_env; assumption. Qed.
 (* a result without objects (a string, a list of strings, ...) is the same result *)
 Fixpoint no_dict (v : value) : bool :=
   match v with VDict _ => false | VList l => forallb no_dict l | _ => true end.
@@ -916,10 +1001,10 @@ Proof.
   clear Hd Hs IH. induction HF as [|x y l l' Hxy HF IHl]; [reflexivity|].
   rewrite (Hel x y (or_introl eq_refl) Hxy), IHl; [reflexivity|]. intros x0 y0 Hx0. apply Hel. right. exact Hx0.
 Qed.
-Corollary resolve_vperm_no_dict e e' v w r : eperm e e' -> env_nodup e -> vperm v w -> nodup_keys v ->
+Corollary resolve_vperm_no_dict e e' v w r : eperm e e' -> env_nodup e -> maps_bk_unique (mappings e) -> vperm v w -> nodup_keys v ->
   resolve e v = Ok r -> no_dict r = true -> resolve e' w = Ok r.
 Proof.
-  intros He Hne Hvw Hnv H Hd. destruct (resolve_vperm_ok e e' v w r He Hne Hvw Hnv H) as (r' & H' & Hr).
+  intros He Hne Hbk Hvw Hnv H Hd. destruct (resolve_vperm_ok e e' v w r He Hne Hbk Hvw Hnv H) as (r' & H' & Hr).
   rewrite H'. f_equal. symmetry. apply (vperm_no_dict_n (S (vsize r))); [lia | exact Hr | exact Hd].
 Qed.
 
@@ -1000,20 +1085,20 @@ Proof.
 Qed.
 
 (* permuting the keys inside a resource's definition: same gate, and the resolved resource is the same up to key order *)
-Theorem resolve_resource_vperm e e' r w : eperm e e' -> env_nodup e -> vperm r w -> nodup_keys r ->
+Theorem resolve_resource_vperm e e' r w : eperm e e' -> env_nodup e -> maps_bk_unique (mappings e) -> vperm r w -> nodup_keys r ->
   rel_res vperm (resolve_resource e r) (resolve_resource e' w).
 Proof.
-  intros He Hne Hrw Hn. unfold resolve_resource.
+  intros He Hne Hbk Hrw Hn. unfold resolve_resource.
   eapply rel_bind; [apply resolve_vperm_env; eassumption|].
   intros a b Ea _ Hab. simpl. apply keep_type_vperm; try assumption. eapply resolve_nodup; eassumption.
 Qed.
 
 (* the whole Resources section: keys permuted inside each resource ... *)
-Lemma resolve_resources_F2 e e' resolved rs rs' : eperm e e' -> env_nodup e ->
+Lemma resolve_resources_F2 e e' resolved rs rs' : eperm e e' -> env_nodup e -> maps_bk_unique (mappings e) ->
   Forall2 (erel vperm) rs rs' -> Forall (fun kv => nodup_keys (snd kv)) rs ->
   rel_res (Forall2 (erel vperm)) (resolve_resources e resolved rs) (resolve_resources e' resolved rs').
 Proof.
-  intros He Hne HF. induction HF as [|[id r] [id' w] rs rs' [Hid Hrw] HF IH]; intros Hn; [constructor|].
+  intros He Hne Hbk HF. induction HF as [|[id r] [id' w] rs rs' [Hid Hrw] HF IH]; intros Hn; [constructor|].
   simpl in Hid, Hrw. subst id'. inv Hn. simpl in H1. specialize (IH H2). simpl.
   rewrite <- (gate_vperm resolved r w Hrw H1). destruct (gate resolved r) as [[|]|]; simpl; [|exact IH|exact I].
   eapply rel_bind; [apply resolve_resource_vperm; eassumption|]. intros a b _ _ Hab.
@@ -1036,12 +1121,12 @@ Proof.
       (resolve_resources e resolved rs'') as [z|]; simpl in *; try contradiction; try exact I.
     eapply Permutation_trans; eassumption.
 Qed.
-Theorem resolve_resources_vperm e e' resolved rs rs' : eperm e e' -> env_nodup e ->
+Theorem resolve_resources_vperm e e' resolved rs rs' : eperm e e' -> env_nodup e -> maps_bk_unique (mappings e) ->
   vperm (VDict rs) (VDict rs') -> Forall (fun kv => nodup_keys (snd kv)) rs ->
   rel_res (fun a b => vperm (VDict a) (VDict b)) (resolve_resources e resolved rs) (resolve_resources e' resolved rs').
 Proof.
-  intros He Hne H Hn. destruct (vperm_dict_inv _ _ H) as (r1 & r2 & Heq & HF & HP). inv Heq.
-  pose proof (resolve_resources_F2 e e' resolved rs r1 He Hne HF Hn) as H1.
+  intros He Hne Hbk H Hn. destruct (vperm_dict_inv _ _ H) as (r1 & r2 & Heq & HF & HP). inv Heq.
+  pose proof (resolve_resources_F2 e e' resolved rs r1 He Hne Hbk HF Hn) as H1.
   pose proof (resolve_resources_permutation e' resolved r1 r2 HP) as H2.
   destruct (resolve_resources e resolved rs) as [x|], (resolve_resources e' resolved r1) as [y|],
     (resolve_resources e' resolved r2) as [z|]; simpl in *; try contradiction; try exact I.
@@ -1052,16 +1137,17 @@ Qed.
 Theorem cond_val_vperm ps ps' maps maps' decl decl' :
   lookups_perm ps ps' -> lookups_perm maps maps' -> lookups_perm decl decl' ->
   (forall k x, lookup k ps = Some x -> nodup_keys x) -> (forall k x, lookup k maps = Some x -> nodup_keys x) ->
+  maps_bk_unique maps ->
   (forall k x, lookup k decl = Some x -> nodup_keys x) ->
   forall fuel rem rem' n, same_members rem rem' ->
     rel_res eq (cond_val ps maps decl fuel rem n) (cond_val ps' maps' decl' fuel rem' n).
 Proof.
-  intros Hp Hm Hd Hnp Hnm Hnd. induction fuel as [|f IH]; intros rem rem' n Hr; [exact I|].
+  intros Hp Hm Hd Hnp Hnm Hbk Hnd. induction fuel as [|f IH]; intros rem rem' n Hr; [exact I|].
   simpl. rewrite <- (Hr n). destruct (mem_str n rem); [|reflexivity].
   pose proof (Hd n) as Hl. pose proof (Hnd n) as Hnb.
   destruct (lookup n decl) as [body|], (lookup n decl') as [body'|]; simpl in Hl; try contradiction; [|reflexivity].
   eapply rel_bind.
-  - apply resolve_vperm_env; [|split; assumption | exact Hl | exact (Hnb body eq_refl)].
+  - apply resolve_vperm_env; [|split; assumption | exact Hbk | exact Hl | exact (Hnb body eq_refl)].
     repeat split; simpl; try assumption. intros m. apply IH. apply same_members_remove. exact Hr.
   - intros a b _ _ Hab. rewrite (vperm_ext_bool _ _ Hab). apply rel_res_eq_refl.
 Qed.
@@ -1069,10 +1155,11 @@ Qed.
 Theorem cond_root_vperm ps ps' maps maps' decl decl' n :
   lookups_perm ps ps' -> lookups_perm maps maps' -> vperm (VDict decl) (VDict decl') ->
   (forall k x, lookup k ps = Some x -> nodup_keys x) -> (forall k x, lookup k maps = Some x -> nodup_keys x) ->
+  maps_bk_unique maps ->
   nodup_keys (VDict decl) ->
   rel_res eq (cond_root ps maps decl n) (cond_root ps' maps' decl' n).
 Proof.
-  intros Hp Hm Hd Hnp Hnm Hnd. unfold cond_root. rewrite <- (vperm_dict_length _ _ Hd).
+  intros Hp Hm Hd Hnp Hnm Hbk Hnd. unfold cond_root. rewrite <- (vperm_dict_length _ _ Hd).
   apply cond_val_vperm; try assumption.
   - apply vperm_lookup; [exact Hd | apply nodup_dict_keys; exact Hnd].
   - intros k x Hl. eapply nodup_lookup; eassumption.
@@ -1201,12 +1288,12 @@ Qed.
 
 Theorem resolve_model_vperm pseudo decls extra maps maps' cdecl cdecl' rs rs' :
   (forall ps, bind_params pseudo decls extra = Ok ps -> forall k x, lookup k ps = Some x -> nodup_keys x) ->
-  lookups_perm maps maps' -> (forall k x, lookup k maps = Some x -> nodup_keys x) ->
+  lookups_perm maps maps' -> (forall k x, lookup k maps = Some x -> nodup_keys x) -> maps_bk_unique maps ->
   vperm (VDict cdecl) (VDict cdecl') -> nodup_keys (VDict cdecl) ->
   vperm (VDict rs) (VDict rs') -> Forall (fun kv => nodup_keys (snd kv)) rs ->
   rel_res vperm (resolve_model pseudo decls extra maps cdecl rs) (resolve_model pseudo decls extra maps' cdecl' rs').
 Proof.
-  intros Hnp Hm Hnm Hc Hnc Hr Hnr. unfold resolve_model.
+  intros Hnp Hm Hnm Hbk Hc Hnc Hr Hnr. unfold resolve_model.
   destruct (bind_params pseudo decls extra) as [ps|] eqn:Eps; simpl; [|exact I]. specialize (Hnp ps eq_refl).
   eapply rel_bind with (R := @Permutation _).
   - assert (H1 : rel_res eq (cond_all ps maps cdecl (keys cdecl)) (cond_all ps maps' cdecl' (keys cdecl))).
@@ -1221,7 +1308,7 @@ Proof.
     { apply lookup_perm; [exact HPr|]. rewrite (cond_all_keys _ _ _ _ _ E1). apply nodup_dict_keys. exact Hnc. }
     rewrite <- (resolve_resources_gate_ext _ resolved resolved' rs' Hsl).
     eapply rel_bind.
-    + apply resolve_resources_vperm; [|split; simpl; assumption | exact Hr | exact Hnr].
+    + apply resolve_resources_vperm; [|split; simpl; assumption | exact Hbk | exact Hr | exact Hnr].
       repeat split; simpl; [apply lookups_perm_refl | exact Hm|]. intros n. unfold conds_fun. rewrite (Hsl n). reflexivity.
     + intros x y _ _ Hxy. simpl.
       eapply vp_dict'; [|apply Permutation_refl].
